@@ -197,6 +197,10 @@ Proof.
   - intros op Hin. apply in_map_iff in Hin. destruct Hin as ([v p] & E & Hin). exists v, (Q ++ p). split; [symmetry; exact E|apply (Hs v p Hin)].
 Qed.
 
+Lemma map_flat_map' : forall {X Y Z} (f : Y -> Z) (g : X -> list Y) l,
+  map f (flat_map g l) = flat_map (fun x => map f (g x)) l.
+Proof. induction l as [|x l IH]; [reflexivity|]. cbn. rewrite map_app, IH. reflexivity. Qed.
+
 Section LIFT.
   Variable H : list N -> list N.
   Variable fuel : nat.
@@ -667,5 +671,54 @@ Section LIFT.
       inversion E; subst st' ops0. split; [reflexivity|].
       apply (entity_facts st (ver_of st + 1) u h r ops (ver_of st) OKu (db_rel_low st d DR) EE VR). lia.
     Qed.
+
+  (* ---------- the keys of Model/C18_Store.reachable ---------- *)
+  Lemma flatten_keys : forall A (sub : list N -> N -> A -> list (skey * snode)) n prefix path ver (t : node A) k,
+    In k (map fst (flatten A sub n prefix path ver t)) <->
+    In k (map (gkey prefix) (tkeys A n path ver t)) \/
+    exists s vh pv a, In (s, (vh, pv, a)) (leaves A n t) /\ In k (map fst (sub (path ++ s) pv a)).
+  Proof.
+    intros A sub. induction n as [|n IH]; intros prefix path ver t k.
+    - destruct t as [|s vh pv a|cs]; cbn [flatten tkeys leaves map fst gkey snd].
+      + split; [intros [E|[]]; left; left; exact E|intros [[E|[]]|(s & vh & pv & a & [] & _)]; left; exact E].
+      + split.
+        * intros [E|Hin]; [left; left; exact E|right; exists s, vh, pv, a; split; [left; reflexivity|exact Hin]].
+        * intros [[E|[]]|(s' & vh' & pv' & a' & [E|[]] & Hin)]; [left; exact E|inversion E; subst; right; exact Hin].
+      + split; [intros [E|[]]; left; left; exact E|intros [[E|[]]|(s & vh & pv & a & [] & _)]; left; exact E].
+    - destruct t as [|s vh pv a|cs]; cbn [flatten tkeys leaves map fst gkey snd].
+      + split; [intros [E|[]]; left; left; exact E|intros [[E|[]]|(s & vh & pv & a & [] & _)]; left; exact E].
+      + split.
+        * intros [E|Hin]; [left; left; exact E|right; exists s, vh, pv, a; split; [left; reflexivity|exact Hin]].
+        * intros [[E|[]]|(s' & vh' & pv' & a' & [E|[]] & Hin)]; [left; exact E|inversion E; subst; right; exact Hin].
+      + split.
+        * intros [E|Hin]; [left; left; exact E|]. rewrite map_flat_map' in Hin. apply in_flat_map in Hin. destruct Hin as (c & Hc & Hin).
+          apply IH in Hin. destruct Hin as [Hin|(s & vh & pv & a & Hl & Hin)].
+          -- left. right. rewrite map_flat_map'. apply in_flat_map. exists c. split; [exact Hc|exact Hin].
+          -- right. exists (c_nib c :: s), vh, pv, a. split.
+             ++ apply in_flat_map. exists c. split; [exact Hc|]. apply in_map_iff. exists (s, (vh, pv, a)). split; [reflexivity|exact Hl].
+             ++ rewrite <- app_assoc in Hin. exact Hin.
+        * intros [[E|Hin]|(s & vh & pv & a & Hl & Hin)]; [left; exact E| |].
+          -- right. rewrite map_flat_map' in Hin. apply in_flat_map in Hin. destruct Hin as (c & Hc & Hin).
+             rewrite map_flat_map'. apply in_flat_map. exists c. split; [exact Hc|]. apply IH. left. exact Hin.
+          -- right. apply in_flat_map in Hl. destruct Hl as (c & Hc & Hl). apply in_map_iff in Hl. destruct Hl as ([s' d'] & E & Hl).
+             cbn [fst snd] in E. inversion E; subst. rewrite map_flat_map'. apply in_flat_map. exists c. split; [exact Hc|]. apply IH.
+             right. exists s', vh, pv, a. split; [exact Hl|]. rewrite <- app_assoc. exact Hin.
+  Qed.
+
+  Theorem reachable_keys : forall st k, In k (map fst (reachable fuel st)) <-> In k (reach_db st).
+  Proof.
+    intros st k. destruct st as [[v t]|]; [|cbn; tauto]. unfold reachable, flatten_e, reach_db, Rup.
+    rewrite flatten_keys. rewrite in_app_iff. apply or_iff_compat_l.
+    rewrite leaf_reach_in. split; intros (ek & vh & pv & pt & Hl & Hin); exists ek, vh, pv, pt; (split; [exact Hl|]).
+    - cbn [app] in *. unfold flatten_p in Hin. rewrite flatten_keys in Hin. unfold RLp, Rup. rewrite in_app_iff.
+      destruct Hin as [Hin|(pk & vh2 & pv2 & stt & Hl2 & Hin)]; [left; exact Hin|right].
+      apply leaf_reach_in. exists pk, vh2, pv2, stt. split; [exact Hl2|].
+      cbn [app] in Hin. unfold flatten_s in Hin. rewrite flatten_keys in Hin. destruct Hin as [Hin|(s3 & vh3 & pv3 & a3 & _ & [])].
+      unfold RLs, Rs. cbn [reach]. rewrite <- app_assoc. exact Hin.
+    - cbn [app] in *. unfold flatten_p. rewrite flatten_keys. unfold RLp, Rup in Hin. rewrite in_app_iff in Hin.
+      destruct Hin as [Hin|Hin]; [left; exact Hin|right]. apply leaf_reach_in in Hin. destruct Hin as (pk & vh2 & pv2 & stt & Hl2 & Hin).
+      exists pk, vh2, pv2, stt. split; [exact Hl2|]. cbn [app]. unfold flatten_s. rewrite flatten_keys. left.
+      unfold RLs, Rs in Hin. cbn [reach] in Hin. rewrite <- app_assoc in Hin. exact Hin.
+  Qed.
   End DB3.
 End LIFT.
